@@ -126,29 +126,40 @@ def cached_interrupt_history(ctx):
     import asyncio
     import warnings
     from hypergraph import AsyncRunner, InMemoryCache
-    prog = IR.prog("top", [IR.func("make", ["x"], ["draft"]), IR.interrupt("approval", ["draft"], ["decision"], pause_at=[1, 2, 3, 4], cache=True),
-                           IR.func("finalize", ["decision"], ["result"])])
-    history = [[["x", "in.x"]], [["x", "in.x"], ["decision", "yes"]], [["x", "in.x"], ["decision", "no"]], [["x", "in.x"], ["decision", "yes"]]]
-    outs = {}
-    for label, cache in (("cached", InMemoryCache()), ("uncached", None)):
-        rt = build.Runtime(prog)
-        with warnings.catch_warnings():
-            warnings.simplefilter("ignore")
-            g = build.build_graph(rt, prog)
-            runner = AsyncRunner(cache=cache)
-            res = []
-            for prov in history:
-                rt.reset()
-                r = asyncio.run(runner.run(g, dict(map(tuple, prov)), error_handling="continue"))
-                res.append({"status": r.status.value, "values": {k: IR.canon(v) for k, v in r.values.items()}})
-        outs[label] = res
-    ctx.count()
-    ctx.traces()
-    for k, (a, b) in enumerate(zip(outs["cached"], outs["uncached"])):
-        if a != b:
-            ctx.violation("cached-interrupt-overrides-supplied-response", {"program": prog, "history": history, "run": k, "cached": a, "uncached": b},
-                          f"run {k + 1} of the history (inputs {history[k]}): with a cache {a}, without {b}")
-            return
+    X = [["x", "in.x"]]
+    scenarios = [
+        # the handler always pauses: pause, resume with one response, with ANOTHER one, with the first again
+        ([1, 2, 3, 4], [X, X + [["decision", "yes"]], X + [["decision", "no"]], X + [["decision", "yes"]]]),
+        # ... and a run WITHOUT a response after a resumed one pauses again (a supplied response is not a cache entry)
+        ([1, 2, 3, 4], [X, X + [["decision", "HUMAN"]], X]),
+        ([1, 2, 3, 4], [X + [["decision", "HUMAN"]], X, X + [["decision", "no"]], X]),
+        # the handler answers by itself (auto-resolved, cached): a supplied response still wins once and is forgotten
+        ([], [X, X + [["decision", "HUMAN"]], X]),
+        ([], [X + [["decision", "HUMAN"]], X, X]),
+    ]
+    for pause_at, history in scenarios:
+        prog = IR.prog("top", [IR.func("make", ["x"], ["draft"]), IR.interrupt("approval", ["draft"], ["decision"], pause_at=pause_at, cache=True),
+                               IR.func("finalize", ["decision"], ["result"])])
+        outs = {}
+        for label, cache in (("cached", InMemoryCache()), ("uncached", None)):
+            rt = build.Runtime(prog)
+            with warnings.catch_warnings():
+                warnings.simplefilter("ignore")
+                g = build.build_graph(rt, prog)
+                runner = AsyncRunner(cache=cache)
+                res = []
+                for prov in history:
+                    rt.reset()
+                    r = asyncio.run(runner.run(g, dict(map(tuple, prov)), error_handling="continue"))
+                    res.append({"status": r.status.value, "values": {k: IR.canon(v) for k, v in r.values.items()}})
+            outs[label] = res
+        ctx.count()
+        ctx.traces()
+        for k, (a, b) in enumerate(zip(outs["cached"], outs["uncached"])):
+            if a != b:
+                ctx.violation("cached-interrupt-overrides-supplied-response", {"program": prog, "history": history, "run": k, "cached": a, "uncached": b},
+                              f"run {k + 1} of the history (inputs {history[k]}, handler {'pauses' if pause_at else 'answers'}): with a cache {a}, without {b}")
+                return
     ctx.bump("cached_interrupt_histories")
 
 
